@@ -78,6 +78,11 @@ def under(p, q):
     return z3.Or(q == p, z3.PrefixOf(z3.Concat(p, SLASH), q))
 
 
+def simple(n):
+    """an entry name: not empty, no '/'"""
+    return z3.And(z3.Length(n) > 0, z3.Not(z3.Contains(n, SLASH)))
+
+
 def fmt_of(kind):
     return z3.If(kind == K_FILE, 8, z3.If(kind == K_DIR, 4, 10))
 
@@ -291,6 +296,22 @@ def declare_fs(w):
             yield st, mk_bool(core.coerce(args[0], INT).v / 4096 == code)
         return f
 
+    def os_listdir(ex, args, kwargs, st, sink, node):
+        p = s_(args[0])
+        for s2, ok in ex.fork(st, fsget(st.heap, "kind", p) == K_DIR):
+            if not ok:
+                ex.raise_(s2, sink, "OSError", origin="os.listdir: not a directory")
+                continue
+            names = z3.Const(core.fresh_name("listdir"), z3.SeqSort(z3.StringSort()))
+            i, j = z3.Int(core.fresh_name("li")), z3.Int(core.fresh_name("lj"))
+            n = z3.String(core.fresh_name("ln"))
+            # every name is an existing entry of p, names are distinct simple names, and every existing entry with a simple name is listed
+            s2.assume(z3.ForAll([i], z3.Implies(z3.And(i >= 0, i < z3.Length(names)), z3.And(fsget(s2.heap, "kind", z3.Concat(p, SLASH, names[i])) != K_ABSENT, simple(names[i]))), patterns=[names[i]]),
+                      z3.ForAll([i, j], z3.Implies(z3.And(i >= 0, i < j, j < z3.Length(names)), names[i] != names[j]), patterns=[z3.MultiPattern(names[i], names[j])]),
+                      z3.ForAll([n], z3.Implies(z3.And(simple(n), fsget(s2.heap, "kind", z3.Concat(p, SLASH, n)) != K_ABSENT), z3.Contains(names, z3.Unit(n))), patterns=[z3.Concat(p, SLASH, n)]))
+            yield s2, SV(SEQ(STR), names)
+
+    w.externals["os.listdir"] = os_listdir
     w.externals.update({"os.lstat": os_lstat, "os.unlink": os_unlink, "shutil.rmtree": shutil_rmtree, "os.makedirs": os_makedirs, "os.chmod": os_chmod, "os.utime": os_utime,
                         "os.symlink": os_symlink, "os.path.join": path_join, "builtins.open": py_open, "hashlib.md5": hashlib_md5,
                         "stat.S_ISREG": isfmt(8), "stat.S_ISDIR": isfmt(4), "stat.S_ISLNK": isfmt(10)})
@@ -332,6 +353,58 @@ def declare_receiver(w):
     s.declare("ModList", "items", SEQ(ANY))                     # the list `modifiedfiles` (a list object shared with the nested function): entries mf(path, mode, mtime, size)
     s.set_bases("Options", ["object"])
     s.declare("Options", "delete", BOOL)
+    s.set_bases("DirMsg", ["object"])
+    s.declare("DirMsg", "mode", INT)
+    s.declare("DirMsg", "names", SEQ(STR))
+    s.declare("DirMsg", "popped", BOOL)
+
+    def isinstance_ref(ex, v, names):
+        if v.ty.cls == "DirMsg":
+            return z3.BoolVal("list" in names)
+        return None
+
+    w.call_hooks[("isinstance", "ref")] = isinstance_ref
+
+    def dirmsg_pop(ex, args, kwargs, st, sink, node):
+        m, idx = args
+        if not z3.is_true(z3.simplify(core.coerce(idx, INT).v == 0)) or not z3.is_false(z3.simplify(st.heap.get(m, "popped").v)):
+            raise Unsupported("directory message: only one pop(0) is modelled")
+        st.heap.set(m, "popped", mk_bool(True))
+        yield st, SV(INT, st.heap.get(m, "mode").v)
+
+    w.externals["rsync.dirmsg_pop"] = dirmsg_pop
+    w.attr_hooks[("DirMsg", "pop")] = lambda ex, st, recv: SV(FUNCT, ExternD("rsync.dirmsg_pop", bound=recv))
+
+    def iter_dirmsg(ex, it, st):
+        if not z3.is_true(z3.simplify(st.heap.get(it, "popped").v)):
+            raise Unsupported("iteration over a directory message before pop(0)")
+        L = st.heap.get(it, "names").v
+        elem = lambda i: SV(STR, L[i])
+        elem.seq = L
+        return z3.Length(L), elem
+
+    w.call_hooks[("iter", "ref:DirMsg")] = iter_dirmsg
+    w.call_hooks[("display", "dict")] = lambda ex, node, st, sink: iter([(st, SV(MAP(STR, BOOL), (z3.K(z3.StringSort(), z3.BoolVal(False)), [z3.K(z3.StringSort(), z3.BoolVal(False))])))]) if not node.keys else (_ for _ in ()).throw(Unsupported("dict display"))
+
+    def options_get(ex, args, kwargs, st, sink, node):
+        o, key = args[0], args[1]
+        if z3.simplify(key.v).as_string() != "delete":
+            raise Unsupported("options.get of another key")
+        yield st, st.heap.get(o, "delete")
+
+    w.externals["rsync.options_get"] = options_get
+    w.attr_hooks[("Options", "get")] = lambda ex, st, recv: SV(FUNCT, ExternD("rsync.options_get", bound=recv))
+
+    def starred_rc(ex, node, st, sink):
+        # [*relcomponents, entryname]
+        if len(node.elts) == 2 and isinstance(node.elts[0], ast.Starred):
+            for s1, rc in ex.ev(node.elts[0].value, st, sink):
+                for s2, e in ex.ev(node.elts[1], s1, sink):
+                    yield s2, SV(SEQ(STR), z3.Concat(core.coerce(rc, SEQ(STR)).v, z3.Unit(core.coerce(e, STR).v)))
+            return
+        raise Unsupported("starred list display")
+
+    w.call_hooks[("display", "starred_list")] = starred_rc
     mod = extract.load(RSYNCR)
     OS, STAT, SHUTIL = (SV(FUNCT, ModuleD(n)) for n in ("os", "stat", "shutil"))
     MD5 = SV(FUNCT, ExternD("hashlib.md5"))
@@ -402,7 +475,13 @@ def declare_receiver(w):
                         elif variant == "entry":
                             raise Unsupported("entry variant reached a directory message (its precondition excludes it)")
                         else:
-                            raise Unsupported("directory message: not modelled in this variant")
+                            # [mode, *names]: a list object; modelled as an object with the mode and the names (pop(0) takes the mode off)
+                            s4.assume(m_tag(u) == T_LIST)
+                            r = ex.allocate(s4, "DirMsg")
+                            s4.heap.set(r, "mode", SV(INT, m_mode(u)))
+                            s4.heap.set(r, "names", SV(SEQ(STR), m_names(u)))
+                            s4.heap.set(r, "popped", mk_bool(False))
+                            yield s4, r
             else:
                 yield s2, SV(ANY, u)
 
@@ -857,24 +936,10 @@ def declare_sender(w):
         cwd = st.heap.get(FSV, "cwd").v
         yield st, SV(STR, RP(p, start, cwd))      # never ValueError on POSIX (that is for different drives)
 
-    def os_listdir(ex, args, kwargs, st, sink, node):
-        p = core.coerce(args[0], STR).v
-        for s2, ok in ex.fork(st, fsget(st.heap, "kind", p) == K_DIR):
-            if not ok:
-                ex.raise_(s2, sink, "OSError", origin="os.listdir: not a directory")
-                continue
-            names = z3.Const(core.fresh_name("listdir"), z3.SeqSort(z3.StringSort()))
-            i, j = z3.Int(core.fresh_name("li")), z3.Int(core.fresh_name("lj"))
-            # every name is an existing entry of p, names are distinct, non-empty and contain no '/'
-            s2.assume(z3.ForAll([i], z3.Implies(z3.And(i >= 0, i < z3.Length(names)),
-                                                z3.And(fsget(s2.heap, "kind", z3.Concat(p, SLASH, names[i])) != K_ABSENT, z3.Length(names[i]) > 0, z3.Not(z3.Contains(names[i], SLASH)))), patterns=[names[i]]),
-                      z3.ForAll([i, j], z3.Implies(z3.And(i >= 0, i < j, j < z3.Length(names)), names[i] != names[j]), patterns=[z3.MultiPattern(names[i], names[j])]))
-            yield s2, SV(SEQ(STR), names)
-
     def os_isabs(ex, args, kwargs, st, sink, node):
         yield st, mk_bool(isabs(core.coerce(args[0], STR).v))
 
-    w.externals.update({"os.readlink": os_readlink, "os.path.relpath": os_relpath, "os.listdir": os_listdir, "os.path.isabs": os_isabs})
+    w.externals.update({"os.readlink": os_readlink, "os.path.relpath": os_relpath, "os.path.isabs": os_isabs})
 
     # ---- small methods ----------------------------------------------------------------------------------------------------------------
     w.add(Contract(f"{RSYNC}:RSync._broadcast", {"self": REF("RSync"), "msg": ANY}, modifies=lambda a, h: [("RSync", a.self, "$out")],
@@ -1039,4 +1104,166 @@ def declare_sender(w):
     w.add_loop(LoopSpec(PL, 0, invariant=lambda L: [("links-sent-so-far-in-order", sent(L.h, L.inp("channel")) == z3.Concat(sent(L.old, L.inp("channel")), z3.SubSeq(L.old("RSync", L.inp("self"), "_links"), 0, L.k))),
                                                      ("params", z3.And(L.channel == L.inp("channel"), L.self == L.inp("self")))],
                         havoc_cells=lambda L: [("Channel", L.inp("channel"), "$sent")], props=["C17"]))
+    return w
+
+
+# ---------------------------------------------------------------------------------------------------------------------------------
+# the recursive walk of receive_directory_structure, all three message kinds (directory branch included)
+# ---------------------------------------------------------------------------------------------------------------------------------
+def _subterms(t):
+    seen, todo = [], [t]
+    while todo:
+        x = todo.pop()
+        seen.append(x)
+        if z3.is_app(x):
+            todo.extend(x.children())
+    return seen
+
+
+def ax_names(t):
+    """directory messages carry distinct entry names without '/' (what RSync._send_directory sends: names from os.listdir)"""
+    i, j = z3.Int("an_i"), z3.Int("an_j")
+    if any(z3.is_var(x) for x in _subterms(t)):
+        return []     # a term from inside a quantifier body: nothing to instantiate
+    try:
+        return [z3.ForAll([i], z3.Implies(z3.And(i >= 0, i < z3.Length(t)), simple(t[i])), patterns=[t[i]]),
+                z3.ForAll([i, j], z3.Implies(z3.And(i >= 0, i < j, j < z3.Length(t)), t[i] != t[j]), patterns=[z3.MultiPattern(t[i], t[j])])]
+    except z3.Z3Exception:
+        # the term contains an if-then-else (a simplified seq.nth): not admissible inside a pattern; let the solver pick triggers
+        return [z3.ForAll([i], z3.Implies(z3.And(i >= 0, i < z3.Length(t)), simple(t[i]))),
+                z3.ForAll([i, j], z3.Implies(z3.And(i >= 0, i < j, j < z3.Length(t)), t[i] != t[j]))]
+
+
+ax_names.names = ["m_names"]
+W1, W2, WC = z3.Int("W1"), z3.Int("W2"), z3.Int("WC")
+SN = z3.String("SN")      # an arbitrary but fixed entry name
+
+
+def child(p, n):
+    return z3.Concat(p, SLASH, n)
+
+
+seg = z3.Function("seg", z3.StringSort(), z3.StringSort(), z3.StringSort())     # seg(P, x): the first path segment of x after the prefix P + "/"
+
+
+def _parts(t):
+    """flatten a concatenation into its parts"""
+    if z3.is_app(t) and t.decl().kind() == z3.Z3_OP_SEQ_CONCAT:
+        out = []
+        for ch in t.children():
+            out.extend(_parts(ch))
+        return out
+    return [t]
+
+
+def _is_slash(t):
+    return z3.is_string_value(t) and t.as_string() == "/"
+
+
+def _cat(parts):
+    return parts[0] if len(parts) == 1 else z3.Concat(*parts)
+
+
+def ax_seg_child(t):
+    """t = P + "/" + a : the first segment of t after P/ is a, for an entry name a (true of seg's definition; differentially checked)"""
+    ps = _parts(t)
+    if len(ps) >= 3 and _is_slash(ps[-2]) and not _is_slash(ps[-1]):
+        return [z3.Implies(simple(ps[-1]), seg(_cat(ps[:-2]), t) == ps[-1])]
+    return []
+
+
+def ax_seg_prefix(t):
+    """t = PrefixOf(P + "/" + a + "/", x): then the first segment of x after P/ is a"""
+    ps = _parts(t.arg(0))
+    if len(ps) >= 4 and _is_slash(ps[-1]) and _is_slash(ps[-3]) and not _is_slash(ps[-2]):
+        return [z3.Implies(z3.And(simple(ps[-2]), t), seg(_cat(ps[:-3]), t.arg(1)) == ps[-2])]
+    return []
+
+
+ax_seg_child.names, ax_seg_prefix.names = ["str.++"], ["str.prefixof"]
+
+
+def walk_post_full(a, h, h2, r, gen=False):
+    items = lambda hh: hh("ModList", a.modifiedfiles, "items")
+    I, I2 = items(h), items(h2)
+    ib, ib2 = inbox(h, a.channel), inbox(h2, a.channel)
+    u = ib[0]
+    P = a.path
+    i, j = (z3.Int("qw1"), z3.Int("qw2")) if gen else (W1, W2)
+    q = z3.String("qw_q") if gen else QP
+    new = lambda x: z3.And(x >= slen(I), x < slen(I2))
+    distinct = z3.Implies(z3.And(new(i), new(j), i < j), mf_path(I2[i]) != mf_path(I2[j]))
+    one = z3.Implies(new(i), z3.And(under(P, mf_path(I2[i])), z3.Or(fsget(h2, "kind", mf_path(I2[i])) == K_FILE, fsget(h2, "kind", mf_path(I2[i])) == K_ABSENT)))
+    frame = z3.Implies(z3.Not(under(P, q)), z3.And(fsget(h2, "kind", q) == fsget(h, "kind", q), fsget(h2, "perm", q) == fsget(h, "perm", q)))
+    if gen:
+        distinct = z3.ForAll([i, j], distinct, patterns=[z3.MultiPattern(I2[i], I2[j])])
+        one = z3.ForAll([i], one, patterns=[I2[i]])
+        frame = z3.ForAll([q], frame, patterns=[fsget(h2, "kind", q), fsget(h2, "perm", q)])
+    isdir = m_tag(u) == T_LIST
+    delete = h("Options", a.options, "delete")
+    return [z3.PrefixOf(I, I2), z3.SuffixOf(ib2, ib), slen(ib2) < slen(ib), distinct, one, frame,
+            arr(h2, "content") == arr(h, "content"), arr(h2, "mtime") == arr(h, "mtime"), arr(h2, "target") == arr(h, "target"),
+            # a directory message: a directory stands at path afterwards, owner-writable with the source's other bits
+            z3.Implies(isdir, fsget(h2, "kind", P) == K_DIR),
+            z3.Implies(z3.And(isdir, m_mode(u) != 0), fsget(h2, "perm", P) == perm_of(or700(m_mode(u))))]
+
+
+def declare_walk(w):
+    declare_serve_rsync(w)
+    w.axiom_providers.extend([ax_names, ax_seg_child, ax_seg_prefix])
+    old = w.contracts[f"{RDS}#walk"]
+    c = Contract(RDS, old.params, requires=old.requires, modifies=lambda a, h: old.modifies(a, h) + [("DirMsg", None, "popped")],
+                 cases=[Case("ok", post=walk_post_full, post_assume=lambda a, h, h2, r: walk_post_full(a, h, h2, r, gen=True)), Case("connection-lost", "raise", "EOFError"), Case("cannot", "raise", "OSError"),
+                        Case("outside", "raise", "AssertionError")], props=["C17"], allocates=True)
+    c.variant_name = "walk"
+    c.closure = dict(old.closure)
+    w.contracts[f"{RDS}#walk"] = c
+    w.variants[RDS] = [w.contracts[f"{RDS}#entry"], c]
+    from pyvc import extract
+    mod = extract.load(RSYNCR)
+    c.closure["receive_directory_structure"] = SV(FUNCT, FuncD(mod, "serve_rsync.receive_directory_structure", closure=c.closure))
+    return w
+
+
+def declare_walk_loops(w):
+    declare_walk(w)
+
+    def ctx(L):
+        a = Args(L.ex.inputs)
+        N = L.h("DirMsg", L.msg, "names")
+        return a, a.path, N
+
+    def names_loop(L, gen=False):
+        a, P, N = ctx(L)
+        h, pre, old = L.h, L.pre, L.old
+        items = lambda hh: hh("ModList", a.modifiedfiles, "items")
+        I0, I = items(old), items(h)
+        i, j = (z3.Int("qn1"), z3.Int("qn2")) if gen else (W1, W2)
+        m = z3.Int("qn_m") if gen else WC
+        q = z3.String("qn_q") if gen else QP
+        sn = z3.String("qn_s") if gen else SN
+        new = lambda x: z3.And(x >= slen(I0), x < slen(I))
+        k = L.k
+        fa = (lambda vs, f, pats: z3.ForAll(vs, f, patterns=pats)) if gen else (lambda vs, f, pats: f)
+        en = L.sv("entrynames")
+        present = lambda s_: z3.Select(en.v[0], s_)
+        pj = mf_path(I[i])
+        return [("items-only-grow", z3.PrefixOf(I0, I)),
+                ("inbox-shrinks", z3.And(z3.SuffixOf(inbox(h, a.channel), inbox(old, a.channel)), slen(inbox(h, a.channel)) < slen(inbox(old, a.channel)))),
+                ("queued-below-a-child-done", fa([i], z3.Implies(new(i), z3.And(under(P, pj), pj != P, z3.Or(fsget(h, "kind", pj) == K_FILE, fsget(h, "kind", pj) == K_ABSENT))), [I[i]])),
+                ("queued-not-below-a-child-to-come", fa([i, m], z3.Implies(z3.And(new(i), m >= k, m < slen(N)), z3.Not(under(child(P, N[m]), pj))), [z3.MultiPattern(I[i], N[m])])),
+                ("queued-paths-distinct", fa([i, j], z3.Implies(z3.And(new(i), new(j), i < j), mf_path(I[i]) != mf_path(I[j])), [z3.MultiPattern(I[i], I[j])])),
+                ("outside-untouched", fa([q], z3.Implies(z3.Not(under(P, q)), z3.And(fsget(h, "kind", q) == fsget(old, "kind", q), fsget(h, "perm", q) == fsget(old, "perm", q))), [fsget(h, "kind", q), fsget(h, "perm", q)])),
+                ("the-directory-itself-stays", z3.And(fsget(h, "kind", P) == K_DIR, fsget(h, "perm", P) == fsget(pre, "perm", P))),
+                ("contents-times-targets-untouched", z3.And(arr(h, "content") == arr(old, "content"), arr(h, "mtime") == arr(old, "mtime"), arr(h, "target") == arr(old, "target"))),
+                ("entrynames-are-the-names-so-far", fa([sn], present(sn) == z3.Contains(z3.SubSeq(N, 0, k), z3.Unit(sn)), [present(sn)])),
+                ("params", z3.And(L.path == P, L.relcomponents == a.relcomponents, L.msg != 0, h("DirMsg", L.msg, "popped"), N == m_names(inbox(old, a.channel)[0]),
+                                  m_tag(inbox(old, a.channel)[0]) == T_LIST, L.mode == m_mode(inbox(old, a.channel)[0])))]
+
+    l0 = LoopSpec(RDS, 0, invariant=lambda L: names_loop(L),
+                  havoc_cells=lambda L: [("FS", FSR, "kind"), ("FS", FSR, "perm"), ("Channel", Args(L.ex.inputs).channel, "$inbox"), ("Channel", Args(L.ex.inputs).channel, "$requested"),
+                                         ("Channel", Args(L.ex.inputs).channel, "$checksum"), ("ModList", Args(L.ex.inputs).modifiedfiles, "items")],
+                  havoc_fields=["DirMsg.popped", "DirMsg.mode", "DirMsg.names"], props=["C17"])
+    l0.invariant_assume = lambda L: [f for _, f in names_loop(L, gen=True)]
+    w.add_loop(l0)
     return w
